@@ -20,6 +20,15 @@ type ShapeOpts struct {
 	MaxPts int
 	// Big occasionally produces long lines (up to 300 points).
 	Big bool
+	// CoordFn, if set, replaces the float-class based coordinate generator.
+	CoordFn func(r *fw.Rand, stride int) []float64
+}
+
+func (o ShapeOpts) coord(r *fw.Rand, stride int, cl FloatClass) []float64 {
+	if o.CoordFn != nil {
+		return o.CoordFn(r, stride)
+	}
+	return Coord(r, stride, cl)
 }
 
 // size draws a component count that over-weights 0 and 1.
@@ -64,7 +73,7 @@ func line(r *fw.Rand, stride int, cl FloatClass, o ShapeOpts) [][]float64 {
 	}
 	out := make([][]float64, n)
 	for i := range out {
-		out[i] = Coord(r, stride, cl)
+		out[i] = o.coord(r, stride, cl)
 	}
 	return out
 }
@@ -76,7 +85,7 @@ func ring(r *fw.Rand, stride int, cl FloatClass, o ShapeOpts) [][]float64 {
 	n := r.Range(4, o.maxPts()+2)
 	out := make([][]float64, n)
 	for i := 0; i < n-1; i++ {
-		out[i] = Coord(r, stride, cl)
+		out[i] = o.coord(r, stride, cl)
 	}
 	out[n-1] = append([]float64{}, out[0]...)
 	return out
@@ -113,7 +122,7 @@ func Shape(r *fw.Rand, kind model.Kind, layout geom.Layout, cl FloatClass, o Sha
 		if !o.NoEmptyPoint && r.Chance(1, 6) {
 			g.C0 = nil
 		} else {
-			g.C0 = Coord(r, stride, cl)
+			g.C0 = o.coord(r, stride, cl)
 		}
 	case model.LineString:
 		g.C1 = line(r, stride, cl, o)
@@ -126,7 +135,7 @@ func Shape(r *fw.Rand, kind model.Kind, layout geom.Layout, cl FloatClass, o Sha
 			if !o.NoEmptyPointMember && r.Chance(1, 4) {
 				g.C1[i] = nil
 			} else {
-				g.C1[i] = Coord(r, stride, cl)
+				g.C1[i] = o.coord(r, stride, cl)
 			}
 		}
 	case model.Polygon:
